@@ -59,11 +59,11 @@ def run(ctx):
                         continue
                     if row.get("e") == "Region":
                         events.append(row)
-                    elif row.get("fault") or row.get("abort") or row.get("hang") or row.get("op") == "abort":
+                    elif row.get("fault") or row.get("abort") or row.get("hang") or row.get("overrun") or row.get("op") == "abort":
                         # drivers that survive a fault (guard page / sanitizer in recover mode / assertion / hang
                         # guard) log it in the line of the case that committed it
                         n += 1
-                        kind = {1: "asan", 2: "segv", 3: "abort", 4: "timeout"}.get(row.get("fault"), "abort" if row.get("abort") else "hang" if row.get("hang") else "fault")
+                        kind = {1: "asan", 2: "segv", 3: "abort", 4: "timeout"}.get(row.get("fault"), "abort" if row.get("abort") else "hang" if row.get("hang") else "overrun" if row.get("overrun") else "fault")
                         if row.get("op") == "abort":
                             kind = "abort"
                         events.append({"e": "Abort", "kind": kind, "site": "%s:%s" % (row.get("in", row.get("op")), row.get("cls", ""))})
